@@ -4,6 +4,8 @@ Driver for graph update histories (C16).
   ghist <kind> <size…> <#ops> <op>…        kind 0 simple (n), 1 directed (n), 2 bipartite (l r),
                                             3 complete bipartite (l r)
   op ::= 0 u v | 1 u v | 2 k | 3 <#pairs> u v …     add_edge | remove_edge | update_vertex_number | add_edges_from
+  ghistw <kind> <size…> <#ops> <op>… <#watch> i…   the same history, the views rendered only after the steps i
+                                            (0 = after construction): `OK W[ <view>] | <outcome>[ <view>] | …`
   gnx <kind> <size…> <#pairs> u v …         the graph built from the pairs, sent through toNx/fromNx
   gfromnx <kind> <nxclass> <size…> <#pairs> u v …
                                             `from_networkx` of class <kind> on a networkx object of class
@@ -101,8 +103,37 @@ def hist {σ} (step : σ → GOp → σ × Outcome) (view : σ → String) (g : 
     (g', acc.2 ++ " | " ++ out.name ++ " " ++ view g')) (g, view g)
   ok r.2
 
+/-- run a history in which the caller LOOKS at the object only after the steps listed in `watch` (0 = right after
+construction): the outcome of every call, the views only where they were read.  (The model is pure: reading a view
+cannot change anything, so this is `hist` with the unread views left out; the real object is observed exactly there.) -/
+def histW {σ} (step : σ → GOp → σ × Outcome) (view : σ → String) (g : σ) (ops : List GOp) (watch : List Nat) : String :=
+  let v := fun (i : Nat) (g : σ) => if watch.contains i then " " ++ view g else ""
+  let r := ops.foldl (fun (acc : σ × String × Nat) o =>
+    let (g', out) := step acc.1 o
+    (g', acc.2.1 ++ " | " ++ out.name ++ v (acc.2.2 + 1) g', acc.2.2 + 1)) (g, "W" ++ v 0 g, 0)
+  ok r.2.1
+
 def handle (opname : String) (a : Args) : Option String :=
   match opname with
+  | "ghistw" => run (do
+      let kind ← int
+      match kind with
+      | 0 => do
+        let n ← int; let ops ← listOf gop; let w ← nats
+        pure (match SimpleG.initI n with
+          | .ok g => histW SimpleG.step viewSimple g ops w
+          | .error e => err e)
+      | 1 => do
+        let n ← int; let ops ← listOf gop; let w ← nats
+        pure (match DiG.initI n with
+          | .ok g => histW DiG.step viewDi g ops w
+          | .error e => err e)
+      | 2 => do
+        let l ← int; let r ← int; let ops ← listOf gop; let w ← nats
+        pure (match BipG.initI l r with
+          | .ok g => histW BipG.step viewBip g ops w
+          | .error e => err e)
+      | _ => failure) a
   | "ghist" => run (do
       let kind ← int
       match kind with
